@@ -965,19 +965,55 @@ func (g *jsGen) expr(depth int, min int) *JSNode {
 	return g.lit()
 }
 
-// assignPattern generates a destructuring assignment target: [a, b.c] = … / ({k: a} = …)
-func (g *jsGen) assignPattern(depth int) *JSNode {
+// assignPattern generates a destructuring assignment target: [a, b.c = 1, ...r] = … / ({k: a, s, t = 2, n: [x]} = …)
+func (g *jsGen) assignPattern(depth int) *JSNode { return g.targetPattern(depth, 0) }
+
+// targetElem is one element of a destructuring assignment target: a simple target or a nested pattern, sometimes with a default.
+func (g *jsGen) targetElem(depth, nest int) *JSNode {
+	r := g.r
+	var t *JSNode
+	if nest < 2 && r.Intn(4) == 0 {
+		t = g.targetPattern(depth, nest+1)
+	} else {
+		t = g.lhs(depth)
+	}
+	if r.Intn(4) == 0 {
+		return &JSNode{K: "tdefault", Kids: []*JSNode{t, g.expr(depth+1, pAssign)}}
+	}
+	return t
+}
+
+func (g *jsGen) targetPattern(depth, nest int) *JSNode {
 	r := g.r
 	if r.Intn(2) == 0 {
 		n := &JSNode{K: "arrtarget"}
 		for i := 1 + r.Intn(3); i > 0; i-- {
-			n.Kids = append(n.Kids, g.lhs(depth))
+			if i > 1 && r.Intn(8) == 0 {
+				n.Kids = append(n.Kids, &JSNode{K: "hole"})
+				continue
+			}
+			n.Kids = append(n.Kids, g.targetElem(depth, nest))
+		}
+		if r.Intn(6) == 0 {
+			n.Kids = append(n.Kids, &JSNode{K: "trest", Kids: []*JSNode{g.lhs(depth)}})
 		}
 		return n
 	}
 	n := &JSNode{K: "objtarget"}
 	for i := 1 + r.Intn(2); i > 0; i-- {
-		n.Kids = append(n.Kids, &JSNode{K: "prop", Kids: []*JSNode{&JSNode{K: "keyid", S: Pick(r, []string{"k1", "p", "q_"})}, g.lhs(depth)}})
+		if (!g.o.PlainKeys || g.o.Shorthand) && g.noRefs == 0 && r.Intn(3) == 0 {
+			// shorthand target {a} or {a = 1}: a use of a, not a declaration
+			el := &JSNode{K: "propshort", Kids: []*JSNode{g.ref()}}
+			if r.Intn(2) == 0 {
+				el.Kids = append(el.Kids, g.expr(depth+1, pAssign))
+			}
+			n.Kids = append(n.Kids, el)
+			continue
+		}
+		n.Kids = append(n.Kids, &JSNode{K: "prop", Kids: []*JSNode{&JSNode{K: "keyid", S: Pick(r, []string{"k1", "p", "q_"})}, g.targetElem(depth, nest)}})
+	}
+	if r.Intn(8) == 0 {
+		n.Kids = append(n.Kids, &JSNode{K: "trest", Kids: []*JSNode{g.lhs(depth)}})
 	}
 	return n
 }
@@ -1099,6 +1135,9 @@ func (g *jsGen) stmt(depth int, top bool) *JSNode {
 		// generated first, the expression second, both in the loop scope.
 		if r.Intn(4) == 0 {
 			n.Kids[0] = g.lhs(depth)
+			if r.Intn(3) == 0 {
+				n.Kids[0] = g.assignPattern(depth) // for ({a = 1, b: [c]} of l)
+			}
 			if n.K == "forof" && n.Kids[0].K == "ident" && n.Kids[0].S == "async" {
 				// `for (async of …` is excluded by a lookahead restriction of the grammar
 				n.Kids[0] = &JSNode{K: "member", S: "p", Kids: []*JSNode{n.Kids[0]}}
